@@ -60,6 +60,10 @@ func run(line string) core.Outcome {
 		return runOpts(f)
 	case "fenc2":
 		return runFenc2(f)
+	case "la":
+		return runLa(f)
+	case "lax":
+		return runLax(f)
 	}
 	return core.Outcome{Impl: "bad-op"}
 }
@@ -623,6 +627,13 @@ func (prop) Generate(rng *core.Rand, tier string, emit func(string)) {
 	r2 := rng.Fork()
 	for i := 0; i < ne/4; i++ {
 		emit(genFenc2Case(r2))
+	}
+	rl := rng.Fork()
+	for i := 0; i < ne/2; i++ {
+		emit(genLaCase(rl))
+		if i%5 == 0 {
+			emit(genLaxCase(rl))
+		}
 	}
 	for i := 0; i < ns; i++ {
 		if l, ok := genSiteCase(rs); ok {
